@@ -77,7 +77,7 @@ def rule_model_round_trip(chk):
              ('solid', {'x': 'double', 'm': 'double'}, [], [], {}, {'x': 0.0, 'm': 1.0}, 2, 2)]             # no output list: everything is written, and the list stays empty
     SPEC2 = [('fluid', {'x': 'double', 'A': 'double', 'tag': 'int', 'u': 'double', 'B': 'float', 'extra': 'long'}, ['c0'], ['x', 'u', 'extra'], {'A': 4, 'B': 3, 'extra': 2},
               {'x': 0.0, 'A': 1.5, 'tag': 0, 'u': 2.5, 'B': 7.0, 'extra': 5}, 3, 5)] + SPEC1[1:]
-    SD = {'t': 0.5, 'dt': 1e-3, 'count': 7, 'ids': [42], 'tag': b'abc', 'bodies': {1: 'left', 2: 'right'}}
+    SD = {'t': 0.5, 'dt': 1e-3, 'count': 7, 'ids': [42], 'tag': b'abc', 'bodies': {1: 'left', 2: 'right'}, 'gravity': [0.0, -9.81, 0.0]}
     ci = M.ClassIndex([OUT, BU, 'pysph/__init__.py'])
     n = 0
     for fmt in ('hdf5', 'npz'):
@@ -114,7 +114,7 @@ def rule_model_round_trip(chk):
                         diffs.append('load returns %r' % (res,))
                     else:
                         sd = res.get('solver_data')
-                        if sd != SD or (isinstance(sd, dict) and any(type(sd[k_]) is not type(SD[k_]) for k_ in SD if k_ in sd)):
+                        if sd != SD or (isinstance(sd, dict) and any(type(sd[k_]) is not type(SD[k_]) and not (isinstance(sd[k_], list) and isinstance(SD[k_], list)) for k_ in SD if k_ in sd)):
                             diffs.append('solver data comes back as %r (was %r)' % (sd, SD))
                         arrs = res['arrays']
                         if sorted(arrs) != sorted(sp[0] for sp in SPEC):
@@ -146,6 +146,46 @@ def rule_model_round_trip(chk):
                     chk.decide(not diffs, 'round-trip', inst, node=dump_fn, file=OUT, func='dump/load',
                                detail_bad='model round trip differs: %s' % '; '.join(diffs[:4]), detail_ok='3 arrays, solver data: identical after dump + load')
     chk.floor('model round trips', n, 32)
+
+
+def rule_old_files(chk):
+    """files written by older releases (npz, version 1: the members `arrays` and `solver_data`) are still read: load() on a model version-1 file hands back the solver data
+    that was saved and one array per saved array"""
+    from verif_static import emit as EM, absint as AI, iomodel as IO
+    ci = M.ClassIndex([OUT, BU, 'pysph/__init__.py'])
+    ld = M.find_func(M.py(OUT), 'load')
+    SD = {'t': 0.25, 'dt': 1e-2, 'count': 3}
+    try:
+        intr = IO.class_intrinsics(ci, OUT, ('HDFOutput', 'NumpyOutput'))
+        intr[('pysph/__init__.py', None, 'has_h5py')] = lambda i, f, a, k, n_, e: True
+        made = []
+
+        def gpa(i, a, k, n, e):
+            made.append(k.get('name'))
+            return EM.mock(name=k.get('name'))
+        saved = AI.EXTERNAL_CALLS.get('pysph.base.utils.get_particle_array')
+        AI.EXTERNAL_CALLS['pysph.base.utils.get_particle_array'] = gpa
+        try:
+            it = AI.Interp(ci, AI.Config([]), intrinsics=intr)
+            IO.FILES.clear()
+            f = IO.NpzFile()
+            f['version'] = IO.NdObj(1)
+            f['arrays'] = IO.NdObj({'fluid': {'x': ('data', 'fluid', 'x')}, 'solid': {'x': ('data', 'solid', 'x')}})
+            f['solver_data'] = IO.NdObj(dict(SD))
+            IO.FILES['old_run.npz'] = f
+            res = EM.call_function(it, OUT, 'load', 'old_run.npz')
+        finally:
+            if saved is None:
+                AI.EXTERNAL_CALLS.pop('pysph.base.utils.get_particle_array', None)
+            else:
+                AI.EXTERNAL_CALLS['pysph.base.utils.get_particle_array'] = saved
+        ok = isinstance(res, dict) and res.get('solver_data') == SD and sorted(res.get('arrays') or {}) == ['fluid', 'solid']
+        chk.decide(ok, 'round-trip', 'npz:version-1-file', node=ld, file=OUT, func='load',
+                   detail_bad='a version-1 npz file with solver data %s and the arrays fluid, solid is loaded as solver data %r, arrays %s' % (
+                       SD, res.get('solver_data') if isinstance(res, dict) else res, sorted(res.get('arrays') or {}) if isinstance(res, dict) else None),
+                   detail_ok='solver data and both arrays come back')
+    except (AI.Unsupported, AI.Raised) as e:
+        chk.undecided('round-trip', 'npz:version-1-file', node=ld, file=OUT, func='load', detail='not interpretable on the model file: %s' % e)
 
 
 def rule_property_arrays_model(chk):
@@ -194,6 +234,7 @@ def main(chk):
                        'whose stem ends in characters of the extension; ParticleArray.get_property_arrays (what is handed to the writer) is interpreted on a model array; '
                        'get_number_of_particles(real) returns the real count unconditionally (shared with C06).')
     rule_model_round_trip(chk)
+    rule_old_files(chk)
     rule_property_arrays_model(chk)
     # only_real output slices with get_number_of_particles(True): that must be the real count itself (rule shared with C06)
     import importlib.util
